@@ -56,8 +56,13 @@ def run_kani_property(prop, tier, units, assumptions=(), samples=(), not_decided
                 if cexs:
                     payload['failing_input'] = dict(unit=u, row=row, operands=cexs[0]['operands'], replay_output=cexs[0]['replay_output'])
                     payload['all_counterexamples'] = cexs[:5]
-                rep.violation(key, '%s :: %s :: %s' % (u, row, '; '.join(e.get('violations', []))[:300]), payload, bool(cexs))
-                nviol += 1
+                if rep.violation(key, '%s :: %s :: %s' % (u, row, '; '.join(e.get('violations', []))[:300]), payload, bool(cexs)):
+                    nviol += 1
+                else:
+                    # an OPEN known finding: its failed clause(s) are reported separately and are not part of what this run claims
+                    k = len(e.get('violations', []))
+                    cov['obligations'] -= k
+                    cov.setdefault('known_finding_obligations', []).append('%s::%s (%d failed clause%s)' % (u, row, k, '' if k == 1 else 's'))
             else:
                 cov['rows_undecided'] += 1
                 unit_info['undecided'].append(row)
